@@ -18,7 +18,8 @@ From AV Require Import Base.Bytes Base.Outcome Hash.HashModel Spec.SpecOps Spec.
   Tree.SpecWF Tree.SpecWFReal Tree.RangeProofsCalc Tree.RangeProofsOps Tree.RangeProofsLoader Tree.RangeProofsReal Tree.RangeProofsParser Tree.RangeProofsNamed Tree.CopyProofsDefs Tree.RangeProofsInv Tree.Project Tree.RangeProofsProject Tree.RangeProofsReload
   Tree.CompatTyped Tree.CompatHist1 Tree.CompatHist4 Tree.RangeProofsAttach Tree.RangeProofsAttachCopy
   Tree.Serialize Tree.Files Tree.ProjectCanon Tree.RangeProofsReloadFile Tree.RangeProofsCanon Tree.RangeProofsMoveSame
-  Tree.OrdHist Tree.OrdHistReal.
+  Tree.OrdHist Tree.OrdHistReal Tree.OrdFrame Tree.WorldCheck Tree.RangeProofsCheck Tree.RangeProofsApi Tree.RangeProofsApiReal.
+From AV Require Hash.HashRealElement Hash.HashRealAttr Hash.HashRealEnum.
 From AV Require Xml.Serializer Xml.StrictValidDef Xml.RoundTripFile.
 From AV Require Xml.Parser.
 Open Scope list_scope.
@@ -548,3 +549,66 @@ Theorem C07_order_histories_real :
   forall (i : id) (n : node), w_nodes w i = Some n ->
   exists items, items_of w (n_content n) = Some items /\ Ordered RT (n_type n) v items.
 Proof. exact order_histories_real. Qed.
+
+(* ------------------------------------------------------------------ end to end: an API-built file reloads to itself *)
+
+(* [U] soundness of the boolean checker Tree/WorldCheck.v world_checkb (node by node over the allocated ids: exact child types,
+   SHORT-NAME where identifiable, not hollow, WorldCanon, RootHeader, the projection exists): everything
+   C07_reload_clean_world asks of the world EXCEPT specification order. *)
+Theorem C07_world_check_sound :
+  forall (strict : bool) (T : tables) (tab_el tab_at tab_en : nametab) (check_fn : N -> list N -> res bool)
+         (float_fmt : N -> list N) (float_parse : list N -> option N) (ver : N) (w : world) (ff : option N) (root : id),
+  Fresh w ->
+  world_checkb T tab_el tab_at tab_en check_fn float_fmt float_parse ver w ff root = true ->
+  (forall i n, w_nodes w i = Some n ->
+     (forall c cn, In (CElem c) (n_content n) -> w_nodes w c = Some cn ->
+        exists idx, find_sub_element T (n_type n) (n_name cn) ver = Val (Some (n_type cn, idx))) /\
+     (is_named_in_version T (n_type n) ver = Val true ->
+        exists c cn, In (CElem c) (n_content n) /\ w_nodes w c = Some cn /\ passes ff cn = true /\ n_name cn = name_short_name T)) /\
+  WorldCanon T tab_el tab_at tab_en check_fn float_fmt float_parse ver w ff root /\
+  RootHeader strict T tab_el tab_at tab_en check_fn float_fmt float_parse ver w ff root /\
+  NoHollow T w ff root /\
+  exists t, proj (fuel_of w) w ff root = Some t.
+Proof. exact world_check_sound. Qed.
+
+(* [U] the end-to-end statement: take ANY history of editing calls from the empty world whose create_file calls all use the
+   version v; serialize a file; if the boolean checker accepts the world (values canonical, required attributes present, stored
+   types = resolved types, header of the version ...), then loading the written text — strictly or leniently — returns exactly
+   the projection of the file, with no warning at all, in version v.  Specification order, conflict-freeness and multiplicities
+   of every child list are NOT checked: they follow from the history (C07_order_histories).
+   Where the checker answers false the recorded findings live: string-blank-or-empty, root-namespace-editable, the allowed
+   RequiredAttributeMissing (the checker asks for every required attribute, so the conclusion is `no warning`),
+   move/copy-keeps-source-type (typedb), adjacent-text-items-merge and insert-before-short-name (layout). *)
+Theorem C07_api_built_reloads :
+  forall (strict : bool) (T : tables) (tab_el tab_at tab_en : nametab) (check_fn : N -> list N -> res bool)
+         (float_fmt : N -> list N) (float_parse : list N -> option N) (attr_schema_location LATEST : N)
+         (root_attrs : list (N * cdata)) (v : N),
+  SpecWF T -> v <= LATEST ->
+  forall (ops : list op) (w : world),
+  single_version v ops = true ->
+  run_ops T tab_el tab_en check_fn LATEST root_attrs ops empty_world = Val w ->
+  forall (f : N) (text : list N) (w' : world),
+  f_serialize T tab_el tab_at tab_en check_fn float_fmt attr_schema_location f w = Val (OK text, w') ->
+  exists fl x, nth_opt (w_files w) (N.to_nat f) = Some fl /\ nth_opt (w_models w) (N.to_nat (f_model fl)) = Some x /\
+    f_version fl = v /\
+    (world_checkb T tab_el tab_at tab_en check_fn float_fmt float_parse v w' (Some f) (m_root x) = true ->
+     exists t st, proj (fuel_of w') w' (Some f) (m_root x) = Some t /\
+       Parser.load strict T tab_el tab_at tab_en check_fn float_parse text = Val (Parser.Ret t st) /\
+       Parser.p_warnings st = [] /\ Parser.p_version st = v /\ Parser.p_standalone st = f_standalone fl).
+Proof. exact api_built_reloads. Qed.
+
+(* [F] non-vacuity on the regenerated tables and name tables: the history new model / file in the latest version / AR-PACKAGES /
+   AR-PACKAGE n1 is single-version, serializes, the checker EVALUATES to true on the resulting world, and the theorem gives:
+   the text loads strictly to the projection without warning (not obtained by running the loader) *)
+Theorem C07_api_built_reloads_example :
+  single_version REAL_LATEST ex_ops = true /\
+  run_ops RT HashRealElement.tab_element HashRealEnum.tab_enum ok_check REAL_LATEST ex_root_attrs ex_ops empty_world = Val ex_world /\
+  f_serialize RT HashRealElement.tab_element HashRealAttr.tab_attr HashRealEnum.tab_enum ok_check no_ffmt 78 0 ex_world
+    = Val (OK ex_text, ex_world') /\
+  world_checkb RT HashRealElement.tab_element HashRealAttr.tab_attr HashRealEnum.tab_enum ok_check no_ffmt no_fparse REAL_LATEST
+    ex_world' (Some 0) 0 = true /\
+  exists t st, proj (fuel_of ex_world') ex_world' (Some 0) 0 = Some t /\
+    Parser.load true RT HashRealElement.tab_element HashRealAttr.tab_attr HashRealEnum.tab_enum ok_check no_fparse ex_text
+      = Val (Parser.Ret t st) /\
+    Parser.p_warnings st = [] /\ Parser.p_version st = REAL_LATEST.
+Proof. exact api_built_reloads_example. Qed.
